@@ -198,6 +198,11 @@ func (sc *metaScn) do(a *metaActor, kind string, target *metaActor, arg string) 
 		f = a.c.leave(name, false)
 	case "unsub":
 		f = a.c.leave(name, true)
+	case "unsubChn":
+		// the same request addressed by the channel spelling of the group
+		f = a.c.leave(types.GrpToChn(name), true)
+	case "leaveChn":
+		f = a.c.leave(types.GrpToChn(name), false)
 	case "delSub":
 		f = a.c.del(name, "sub", map[string]any{"user": target.u.uid.UserId()})
 	case "delTopic":
@@ -275,6 +280,9 @@ func metaRowsEqual(a, b metaRows) (bool, string) {
 // metaNextDefacs, when set, is the default access requested for the next group created by metaSetup.
 var metaNextDefacs map[string]any
 
+// metaNextChan, when set, makes the next group created by metaSetup channel-enabled.
+var metaNextChan bool
+
 // metaSetup creates the topic and actors.
 func metaSetup(w *vfWorld, r *vfkit.R, focus, kind string) *metaScn {
 	sc := &metaScn{w: w, r: r, focus: focus, kind: kind, offeredO: map[types.Uid]bool{}, maxSubs: globals.maxSubscriberCount}
@@ -290,7 +298,7 @@ func metaSetup(w *vfWorld, r *vfkit.R, focus, kind string) *metaScn {
 		if metaNextDefacs != nil {
 			desc["defacs"] = metaNextDefacs
 		}
-		name, f := o.c.newGroup(false, desc)
+		name, f := o.c.newGroup(metaNextChan, desc)
 		if f == nil || f.code() != 200 {
 			r.Inconclusive("meta setup: create failed")
 			return nil
